@@ -234,7 +234,9 @@ CLAIMS = {
              "temporary/permission errors defer, x bit = forward-only; checkhome(): writable or sticky home defers; "
              "mailprogram(): 0 continue, 99 stop-with-success, {100,64,65,70,76,77,78,112} permanent, crash and everything "
              "else temporary.",
-        note="NOT covered: the bodies of bouncexf (header scan for the own Delivered-To line) and mailforward; which byte ends a "
+        note="bouncexf (the Delivered-To loop check: every header line as long as the Delivered-To line is compared, an identical one "
+             "bounces, nothing after the header is examined) and mailforward (Delivered-To line first, every line once, NEWSENDER, every "
+             "address once and in order, success only if qmail-queue accepted) have their own loop-contract proofs. NOT covered: which byte ends a "
              "maildir line; lower-casing itself is case_lowerb's contract. The sizing of the forward-address table in main is a "
              "bounded stand-in (local_main_recips, .qmail <= 6 bytes); the unbounded main proof models that table generously.",
         design_ref="DESIGN.md section 5 C13"),
